@@ -273,6 +273,12 @@ func c17GenSpec(g *simcore.Tape, id string, h2 bool, maxBody int, re *regexp.Reg
 		}
 	}
 	sp.BodyLen = len(sp.Body)
+	if h2 && len(sp.Body) == 0 {
+		// An empty chunked upstream reply lets httputil.ReverseProxy's immediate-flush timer goroutine race
+		// with the returning handler (the client then sees either "Content-Length: 0" or an empty chunked
+		// body): framing only, but it would make the trace depend on the Go scheduler.
+		sp.HasCL = true
+	}
 	return sp
 }
 
